@@ -24,10 +24,10 @@ def tags_for(n):
     return tuple((0x21 + 0x1D * i) & 0xFF for i in range(n))
 
 
-def _cfg(mps, L, maxlast=1, gap=1, pace=1, ready=1, bg_last=(), others=(), flush=1, single=1, delays=(1,), junk=None, flavour=None, align=0):
+def _cfg(mps, L, maxlast=1, gap=1, pace=1, ready=1, bg_last=(), others=(), flush=1, single=1, delays=(1,), junk=None, flavour=None, align=0, ep2=0):
     return dict(mps=mps, L=L, maxlast=maxlast, gap=gap, pace=pace, ready=ready, bg_last=list(bg_last), others=list(others),
-                flush=flush, single=single, delays=list(delays), junk=junk, flavour=flavour,
-                align_goals=["packet-completed-one-cycle-before-response-slot", "same-after-a-short-packet"] if align else [])
+                flush=flush, single=single, delays=list(delays), junk=junk, flavour=flavour, ep2=ep2,
+                align_goals=["byte-accepted-shortly-before-response-slot", "same-after-a-short-packet"] if align else [])
 
 
 def configs(tier):
@@ -39,6 +39,7 @@ def configs(tier):
          _cfg(2, 4, gap=2, ready=2, bg_last=[3], others=["out1", "fin"], flush=0),
          _cfg(2, 4, others=["sof"], flush=0, junk=J),
          _cfg(2, 4, others=["in2"], flush=0, junk=[1, 0]),
+         _cfg(2, 4, others=["in2ack"], flush=0, ep2=1),
          _cfg(3, 5, bg_last=[2]),
          _cfg(3, 7, pace=2, flush=0, delays=[1, 5, 12], junk=J),
          _cfg(4, 6, ready=3, bg_last=[3], flush=0, delays=[1, 9, 17], junk=J),
@@ -65,7 +66,8 @@ def configs(tier):
          _cfg(8, 10, others=["fin"], flush=0, delays=[1, 11], junk=J),
          _cfg(64, 65, single=0, maxlast=0, bg_last=[63, 64], flush=0, delays=[1, 30, 60], junk=J),
          _cfg(4, 6, flush=0, gap=12, delays=range(1, 49), flavour="clk60", align=1),
-         _cfg(4, 5, flush=0, gap=2, delays=range(1, 25), flavour="hs", align=1, junk=J)]
+         _cfg(4, 5, flush=0, gap=2, delays=range(1, 25), flavour="hs", align=1, junk=J),
+         _cfg(3, 6, maxlast=2, others=["in2ack", "fin"], gap=2, ready=2, ep2=1)]
     return q + t
 
 
@@ -93,8 +95,16 @@ class BulkInSpec(Spec):
     def build(self):
         from luna.gateware.usb.usb2.endpoints.stream import USBStreamInEndpoint
         mk = lambda: USBStreamInEndpoint(endpoint_number=1, max_packet_size=self.mps)
-        design, h = build_device(control="standard", ep0_mps=8, endpoints=[mk], probe=False)
+        mks = [mk]
+        if self.cfg.get("ep2"):
+            # a second bulk IN endpoint that always has data, so that the host can complete (and ACK) transactions on it
+            mks.append(lambda: USBStreamInEndpoint(endpoint_number=2, max_packet_size=2))
+        design, h = build_device(control="standard", ep0_mps=8, endpoints=mks, probe=False)
         ep = h["endpoints"][0]
+        if self.cfg.get("ep2"):
+            e2 = h["endpoints"][1]
+            design.inputs.update(s2_valid=e2.stream.valid, s2_payload=e2.stream.payload)
+            design.defaults.update(s2_valid=1, s2_payload=0xB2)
         design.inputs.update(s_valid=ep.stream.valid, s_payload=ep.stream.payload, s_last=ep.stream.last, flush=ep.flush)
         design.observes.update(s_ready=ep.stream.ready, rfr=ep.interface.tokenizer.ready_for_response)
         if self.flavour in ("clk60", "hs"):
@@ -132,6 +142,7 @@ class BulkInSpec(Spec):
             "an ACK that does not reach the device and a data packet that does not reach the host look the same to the device; both are modelled (they differ in what the ideal host has accepted)",
             "producer follows the stream handshake: a byte counts as pushed in the cycle valid and ready are both high; `first` is not driven; while valid is low payload/last are don't-care and carry the configured junk values (0/0, or last=1 with a payload byte that is not in the script)",
             "traffic to another device address is seen as a hub forwards it downstream: the token and the host's handshake, not the other device's data",
+            "ep2 configurations: the device has a second bulk IN endpoint (ep 2) that always has data; `in2ack` is a complete, ACKed IN transaction on it",
             "short packets without `last` are tolerated once flush has been asserted on the path; otherwise every short packet must end a transfer",
             "between transactions the bus is either idle for the minimum gap or for a long time (> 641 cycles, all inter-packet timers saturated); one-shot pushes happen during long idle periods, pushes concurrent with bus traffic through the valid level (rising at the configured cycle offsets)",
             "idle periods are run with line_state=K so that the suspend timer does not distinguish states",
@@ -178,6 +189,7 @@ class BulkInSpec(Spec):
         if self.use_flush and self.mps > 1: g.append("flush-packet")
         if "fin" in self.others: g.append("foreign-ack-while-unacked")
         g += self.cfg.get("align_goals", [])
+        if "in2ack" in self.others: g.append("other-endpoint-transaction-acked")
         return g
 
     def apply(self, cur, env, a):
@@ -226,6 +238,13 @@ class BulkInSpec(Spec):
         host = self.host
         if kind == "sof": host.send(cur, U.sof(0x155), False)
         elif kind == "in2": host.send(cur, U.token(U.IN, 0, 2), True)
+        elif kind == "in2ack":
+            # a complete IN transaction on the other bulk IN endpoint of the same device, ACKed by the host
+            r = host.send(cur, U.token(U.IN, 0, 2), True)
+            k = U.classify_device_packet(r) if r is not None else None
+            if k is not None and k[0] == "data":
+                host.send(cur, U.handshake(U.ACK), False)
+                self.cover["other-endpoint-transaction-acked"] += 1
         elif kind == "out1":
             host.send(cur, U.token(U.OUT, 0, 1), False)
             host.send(cur, U.data_packet(U.DATA0, (0x5A,)), True)
@@ -247,6 +266,11 @@ class BulkInSpec(Spec):
         empty = unacked is None and pos == dacc and not dzlp
         owed = unacked is not None or dzlp or pos - dacc >= mps or any(l >= dacc for l in lasts)
         resp = host.send(cur, U.token(U.IN, 0, 1), True)
+        # vacuity guard for the alignment sweeps, in terms of the public stream interface only: some byte was accepted by the
+        # endpoint 1..4 cycles before the token's response slot (whatever the endpoint then answers)
+        if prod.rfr_t and any(0 < r - t <= 4 for t in prod.acc_t.values() for r in prod.rfr_t):
+            self.cover["byte-accepted-shortly-before-response-slot"] += 1
+            if 0 < plen < mps: self.cover["same-after-a-short-packet"] += 1
         if resp is None:
             raise Violation("in-token:no-response", dict(env=env))
         kind = U.classify_device_packet(resp)
@@ -295,12 +319,11 @@ class BulkInSpec(Spec):
                     raise Violation("boundary:short-packet-without-last-or-flush", dict(packet=payload, start=dacc, lasts=prod.lasts))
             if n == mps: self.cover["full-packet"] += 1
             if n == 0: self.cover["zlp"] += 1
-            # alignment of interest: the byte that completes this packet was accepted in the cycle just before the token's
-            # response slot (ready_for_response), i.e. the transfer manager answers in the first cycle it has a packet
+            # informational only (implementation-specific timing): the byte completing this packet was accepted in the cycle
+            # just before the response slot and the packet was nevertheless sent in that slot
             tc = prod.acc_t.get(dacc + n - 1) if n else None
             if tc is not None and (tc + 1) in prod.rfr_t:
-                self.cover["packet-completed-one-cycle-before-response-slot"] += 1
-                if 0 < plen < mps: self.cover["same-after-a-short-packet"] += 1
+                self.cover["info:packet-completed-one-cycle-before-response-slot-and-sent"] += 1
         # ---- the ideal host
         if outcome == "datalost":
             self.cover["data-lost"] += 1
